@@ -84,4 +84,22 @@ CHECKS = {
         "text": "Derivative operators are applied to the monomial basis in every cell class; calculate_admt is checked for finiteness, annihilation of constants, the anisotropy-1 identity for any flux map in every row, analytic coefficients for quadratic flux maps at interior rows, and error halving under refinement for cubic/quartic maps.",
         "note": "Reference derivation in mc/refs/admt_ref.py is self-tested against 4th-order numerical differentiation of the flux form in every worker; D_par=1, D_perp=1/anisotropy assumed.",
     },
+    "C06": {
+        "engine": "H",
+        "technique": "explicit-state exploration of all add/update/install histories up to length 2 over a 195-operation alphabet (all 38 k pairs) plus length 3 inside collision groups (thorough: full-group triples, length 4 per family) on a fresh scratch repository, reading back every key of every family after every operation against a dict model",
+        "text": "Each history runs on a fresh repository directory with a scratch $HOME and cwd; after every operation every key of all 14 families is read through its get_* function: written keys bit-for-bit (dtype, shape, bytes), never-written keys RuntimeError, other keys unchanged, all spellings of one transition identical, caller payload unchanged, nothing created outside the repository path; rejected calls leave other keys untouched. A mismatch is attributed to the operation just executed and the model adopts the observed content so the rest of the history is still explored.",
+        "note": "install_* values compared at rel 1e-12 with float(text) x unit conversion (parser fidelity is C08); an invalid call that is accepted is counted, not a violation; os.walk subset oracle replaced by stray-file search in $HOME, cwd and next to the repository.",
+    },
+    "C08": {
+        "engine": "L",
+        "technique": "bounded-exhaustive generation of ADF11/12/15/21/22 files by independent writers over shape x block x layout x trailer x header-style lattices, parse + install + read-back compared with float(text) of every number written; failing files delta-minimised",
+        "text": "Writers follow the published record layouts (DESIGN Appendix A), keep float(text) of every printed number as ground truth and were calibrated on the canonical shapes. 31.8 k files (thorough 399 k) over grid sizes around the values-per-line boundaries, block configurations, resolved/unresolved, three trailer forms, six ADF15 header styles, EXCIT/RECOM/CHEXC, D/E exponents; each is parsed and installed through every front-end and read back; wrong element and absent block must be rejected with the repository left empty.",
+        "note": "Resolved ADF11 with several (IPRT, IGRD) blocks per Z1 only requires one of the file's blocks; ADF12 only zero-filled unused slots; wrong-element rejection for ADF11 only.",
+    },
+    "C14": {
+        "engine": "H",
+        "technique": "explicit-state exploration of all evaluation sequences <= 3 (thorough 4) over a role alphabet of points and all injective visit orders over one-point-per-cell, each step compared with a fresh cache evaluated at that point only; geometry lattice for node values, multilinear exactness, h^2 bound, outside behaviour and bounds invariance",
+        "text": "Caching1D/2D/3D with recording wrapped functions: every history value must equal the value from a fresh cache (they are bit-identical on the repaired tree), nodes are read off the call log, node values / multilinear reproduction / curvature bound are checked on a lattice of 120+9+4 geometries incl. areas far from the origin, with and without function boundaries and no_boundary_error.",
+        "note": "The call log is not an oracle; points within 1.5e-7 outside an edge may evaluate or raise but history-independently; node tolerance grows with prod N^3 in 3-D (documented algorithm).",
+    },
 }
